@@ -15,6 +15,7 @@ PROPS = {   # subject prefix -> (property, what failed)
  "fix: the job thread tolerates receive sessions": ("C08", "job thread held between the key snapshot and the table lookup while the receive thread completes the message: KeyError, job thread dead (both layers)"),
  "fix: J1939-22 advance the send session before": ("C08", "J1939-22 originator pre-empted after a segment was on the bus but before the session state was advanced: the CTS / EOM acknowledge handled in between was overwritten, message lost or job thread spinning"),
  "fix: ignore transport connection-management frames sent from the global": ("C07", "a CTS / end-of-message acknowledge from source address 255 matches the key of the stack's own broadcast session: J1939-22 leaks the BAM session number for good, J1939-21 cuts the broadcast short (found after adding frames from 255 to the C07 alphabet)"),
+ "fix: DM1 receive parser no longer writes": ("C16", "one Dm1 object used for sending and receiving, send callback handing out a persistent lamp dict: a DM1 received from another node overwrote it and the node then broadcast foreign lamp states as its own (found by the one-object exchange scenarios added to C16)"),
  "fix: DM14 server treats a read of exactly 8": ("C17", "a DM14 read of exactly 8 data bytes: the server sent 'operation complete' before its multi-packet DM16, the client returned [] and both sides stayed non-idle"),
  "fix: DM14 read converts every object": ("C17", "DM14 read with value conversion: every object after the first was converted from a wrong byte slice"),
  "fix: DM14 server does not queue the end-of-message": ("C17", "after a multi-packet DM14 read the 7 bytes of the end-of-message acknowledge stayed in the server's write queue: the next write handed them to the application instead of the written data"),
